@@ -1023,3 +1023,58 @@ Theorem kind_counting_verdict_refuted : exists members blk,
   run_block (fun _ => 0%N) (fun _ => 0%N) blk "a" <> run_block (fun _ => 0%N) (fun _ => 0%N) blk "b".
 Proof. exists ["a"; "b"]%string. eexists. exact kind_counting_is_not_enough. Qed.
 Print Assumptions kind_counting_verdict_refuted.
+
+(* ---- span pushes at the shared batches of the two span insert services ------------------------------------------- *)
+
+(* Whatever spans a request carries (any id widths, numbers of keys and values, sizes, decoder panics and errors: evs) and
+   whatever the other clients send as long as their requests are rectangular: no block of the spans service or of the
+   attributes service is refused and nobody is answered with an error, in every interleaving with every placement of the flushes. *)
+Theorem span_pushes_never_fail_another_clients_push : forall evs,
+  let sent := sent_batches gen_on_span_cols gen_spans_fields gen_attrs_fields (batch0 gen_spans_fields gen_attrs_fields) evs in
+  (forall stream, (forall r, In (SvReq r) stream -> sreq_ok 9 r = true \/ In r (map (fun b => span_request 2 gen_spans_consumed (b_spans b)) sent)) ->
+                  forall cnt, Forall (fun a => sa_ok a = true) (srun 9 cnt (sbatch0 9) stream)) /\
+  (forall stream, (forall r, In (SvReq r) stream -> sreq_ok 7 r = true \/ In r (map (fun b => span_request 2 gen_attrs_consumed (b_attrs b)) sent)) ->
+                  forall cnt, Forall (fun a => sa_ok a = true) (srun 7 cnt (sbatch0 7) stream)).
+Proof.
+  intros evs sent.
+  pose proof (span_requests_ok gen_on_span_cols gen_spans_fields gen_attrs_fields gen_spans_consumed gen_attrs_consumed ltac:(vm_compute; reflexivity) evs 2%Z) as Hreq.
+  rewrite Forall_forall in Hreq.
+  split; intros stream Hs cnt; apply (shared_batch_ok _ _ _ _ 0%N); try reflexivity;
+    unfold sevs_ok; apply forallb_forall; intros e He; destruct e as [r|]; try reflexivity;
+    destruct (Hs r He) as [Hr|Hr]; try exact Hr; apply in_map_iff in Hr as [b [<- Hb]]; apply (Hreq b Hb).
+Qed.
+Print Assumptions span_pushes_never_fail_another_clients_push.
+
+(* ---- the multipart form of /ingest at framing level ---------------------------------------------------------------- *)
+
+(* What pProfProtoDec.Decode does between the query parameters and the profile parser, as a function of the form's structure
+   (model/IngestShared.v section 8; mime/multipart and compress/gzip as read, compared with the real route on every generated
+   form): whatever the form -- boundary line, closing delimiter, any parts in any order, any content of the chosen file -- the
+   bytes inflated for the request stay within the Decompressor's bound plus the payload limit ... *)
+Theorem multipart_form_inflates_within_bounds : forall limit f, (0 <= limit)%Z ->
+  (mform_inflated limit f <= decompressor_limit + 1 + limit)%Z.
+Proof. exact mform_inflated_bounded. Qed.
+Print Assumptions multipart_form_inflates_within_bounds.
+
+(* ... and a form is acknowledged only when its first FILE part named "profile" is a gzip stream of 1 .. 100000 bytes that holds
+   a profile (possibly gzip-compressed once more, within the payload limit); every other form is answered with an error *)
+Theorem acknowledged_multipart_form_has_a_profile_file : forall limit f, mform_predict limit f = Exact C2xx ->
+  exists p, In p (mf_parts f) /\ mp_name p = mform_field /\ mp_file p = true /\
+            (mp_content p = McProfile \/ (mp_content p = McNested /\ (mp_inflated2 p <= limit)%Z)) /\
+            (0 < mp_inflated p <= decompressor_limit)%Z.
+Proof.
+  intros limit f H. unfold mform_predict in H. destruct (mform_accepts limit f) eqn:E; [|discriminate].
+  exact (mform_accepted_has_profile limit f E).
+Qed.
+Print Assumptions acknowledged_multipart_form_has_a_profile_file.
+
+Example multipart_form_hypotheses_met :
+  mform_predict 1048576 {| mf_boundary_ok := true; mf_closed := true;
+     mf_parts := [{| mp_name := "sample_type_config"; mp_file := false; mp_content := McNotGzip; mp_inflated := 0; mp_inflated2 := 0 |};
+                  {| mp_name := "profile"; mp_file := true; mp_content := McNested; mp_inflated := 300; mp_inflated2 := 400000 |}] |} = Exact C2xx.
+Proof. vm_compute. reflexivity. Qed.
+
+(* the form field, the Decompressor's bound and the boundary pattern are the source's (regenerated) *)
+Theorem multipart_form_in_source : strs_eqb' gen_mform_source mform_source_model = true.
+Proof. vm_compute. reflexivity. Qed.
+Print Assumptions multipart_form_in_source.
